@@ -5,8 +5,11 @@ package core2
 import (
 	"fmt"
 	"net"
+	"sync"
+	"sync/atomic"
 	"time"
 
+	armon "github.com/armon/go-metrics"
 	"github.com/hashicorp/serf/serf"
 
 	"verif/internal/node"
@@ -143,4 +146,58 @@ func fitLen(target int, enc func(p int) int) int {
 		}
 	}
 	return p
+}
+
+// slowSink is the process-wide go-metrics sink of the core2 checks.  While a
+// delay is set, the counters named in keys take that long to record (a slow
+// metrics sink is nothing unusual); this widens, through an extension point
+// the code already has, the gap between the statements before and after the
+// counter call.  With no delay set it does nothing.
+type slowSink struct {
+	armon.BlackholeSink
+	delayNs atomic.Int64
+	mu      sync.Mutex
+	keys    map[string]bool
+}
+
+func (s *slowSink) IncrCounterWithLabels(key []string, val float32, labels []armon.Label) {
+	d := s.delayNs.Load()
+	if d == 0 {
+		return
+	}
+	s.mu.Lock()
+	hit := false
+	for _, k := range key {
+		if s.keys[k] {
+			hit = true
+		}
+	}
+	s.mu.Unlock()
+	if hit {
+		time.Sleep(time.Duration(d))
+	}
+}
+
+var (
+	core2Sink     = &slowSink{}
+	core2SinkOnce sync.Once
+)
+
+// slowMetrics makes the counters with one of the given key elements slow; the
+// returned function switches that off again.
+func slowMetrics(delay time.Duration, keys ...string) (off func()) {
+	core2SinkOnce.Do(func() {
+		conf := armon.DefaultConfig("verif")
+		conf.EnableHostname = false
+		conf.EnableRuntimeMetrics = false
+		_, _ = armon.NewGlobal(conf, core2Sink)
+	})
+	core2Sink.mu.Lock()
+	core2Sink.keys = map[string]bool{}
+	for _, k := range keys {
+		core2Sink.keys[k] = true
+	}
+	core2Sink.mu.Unlock()
+	core2Sink.delayNs.Store(int64(delay))
+	return func() { core2Sink.delayNs.Store(0) }
 }
